@@ -8,10 +8,14 @@ package c18
 import (
 	"bufio"
 	"bytes"
+	crand "crypto/rand"
+	"crypto/rsa"
 	"crypto/sha256"
 	"crypto/tls"
+	"crypto/x509"
 	"encoding/hex"
 	"encoding/json"
+	"encoding/pem"
 	"fmt"
 	"math/rand"
 	"net"
@@ -106,6 +110,19 @@ func scenarios(tier string, seed int64) []scenario {
 			{Services: []string{"telnet", first}, Stop: []string{"kill", "term"}[i%2]},
 			{Services: []string{"telnet", "ssh-simulator", "ssh-auth"}, Stop: "term"},
 			{Services: []string{"telnet", first}, Stop: "kill"}}})
+	}
+	// a sibling service that is given a key of its own in the configuration joins for one run: the stored identity of
+	// the others is what it was before and after
+	for i := 0; i < 2; i++ {
+		first := []string{"telnet", "ssh-simulator"}
+		if i == 1 {
+			first = []string{"telnet", "ssh-simulator", "ftp"}
+		}
+		out = append(out, scenario{Kind: "history", Runs: []run{
+			{Services: first, Stop: "term"},
+			{Services: append(append([]string{}, first...), "ssh-auth+key"), Stop: []string{"kill", "term"}[i]},
+			{Services: first, Stop: "term"},
+			{Services: append(append([]string{}, first...), "ssh-auth+key"), Stop: "term"}}})
 	}
 	// agent listener histories
 	for i := 0; i < 2; i++ {
@@ -210,9 +227,27 @@ func config(dir string, p ports, svcs []string, agent bool) string {
 		if s == "ftp" {
 			extra = fmt.Sprintf("fs_base=%q\n", filepath.Join(dir, "ftproot"))
 		}
+		if s == "ssh-auth+key" {
+			// an ssh-auth service that is given its host key in the configuration (the operator's own key)
+			fmt.Fprintf(&b, "[service.sshauthkey]\ntype=\"ssh-auth\"\nprivate-key=\"\"\"%s\"\"\"\n[[port]]\nport=\"tcp/127.0.0.1:%d\"\nservices=[\"sshauthkey\"]\n", configuredKey(), p.SSHAuth)
+			continue
+		}
 		fmt.Fprintf(&b, "[service.%s]\ntype=%q\n%s[[port]]\nport=\"tcp/127.0.0.1:%d\"\nservices=[%q]\n", s, s, extra, portOf[s], s)
 	}
 	return b.String()
+}
+
+var cfgKey string
+
+// configuredKey is a host key an operator puts into the configuration (generated once per harness process).
+func configuredKey() string {
+	if cfgKey == "" {
+		k, err := rsa.GenerateKey(crand.Reader, 2048)
+		if err == nil {
+			cfgKey = string(pem.EncodeToMemory(&pem.Block{Type: "RSA PRIVATE KEY", Bytes: x509.MarshalPKCS1PrivateKey(k)}))
+		}
+	}
+	return cfgKey
 }
 
 type proc struct {
@@ -665,9 +700,9 @@ func runScenario(k int, sc scenario) scnObs {
 			}
 			ro.Identity["agent-key-handshake-with-first-key"] = fmt.Sprint(ok)
 		} else {
-			portOf := map[string]int{"ssh-simulator": p.SSH, "ftp": p.FTP, "smtp": p.SMTP, "ldap": p.LDAP, "ssh-auth": p.SSHAuth}
-			readers := map[string]func(int) string{"ssh-simulator": readSSHKey, "ftp": readFTPCert, "smtp": readSMTPCert, "ldap": readLDAPCert, "ssh-auth": readSSHKey}
-			names := map[string]string{"ssh-simulator": "ssh-host-key", "ftp": "ftp-cert", "smtp": "smtp-cert", "ldap": "ldap-cert", "ssh-auth": "ssh-auth-host-key"}
+			portOf := map[string]int{"ssh-simulator": p.SSH, "ftp": p.FTP, "smtp": p.SMTP, "ldap": p.LDAP, "ssh-auth": p.SSHAuth, "ssh-auth+key": p.SSHAuth}
+			readers := map[string]func(int) string{"ssh-simulator": readSSHKey, "ftp": readFTPCert, "smtp": readSMTPCert, "ldap": readLDAPCert, "ssh-auth": readSSHKey, "ssh-auth+key": readSSHKey}
+			names := map[string]string{"ssh-simulator": "ssh-host-key", "ftp": "ftp-cert", "smtp": "smtp-cert", "ldap": "ldap-cert", "ssh-auth": "ssh-auth-host-key", "ssh-auth+key": "ssh-auth-configured-key"}
 			for _, s := range r.Services {
 				rd := readers[s]
 				if rd == nil {
